@@ -475,6 +475,8 @@ class Scene(Geometry3D):
         # get the geometry name and transform for each instance
         graph = self.graph
         instance = [graph[n] for n in graph.nodes_geometry]
+        # only instances of geometry that has a mass take part
+        instance = [(mat, g) for mat, g in instance if g in mass]
 
         # get the transformed center of mass for each instance
         transformed = np.array(
